@@ -75,4 +75,67 @@ theorem replace_names {name : String} {s' : SFrame} : ∀ (l : List (String × S
     · simp
     · simp [replace_names rest]
 
+theorem removeName_of_not_mem {name : String} : ∀ (l : List (String × SFrame)), name ∉ l.map (·.1) →
+    removeName name l = l
+  | [], _ => rfl
+  | (n, s) :: rest, h => by
+    simp only [List.map_cons, List.mem_cons, not_or] at h
+    have hne : ¬ n = name := fun e => h.1 e.symm
+    simp only [removeName, if_neg hne, removeName_of_not_mem rest h.2]
+
+theorem removeName_append_self {name : String} {s : SFrame} : ∀ (l : List (String × SFrame)),
+    name ∉ l.map (·.1) → removeName name (l ++ [(name, s)]) = l
+  | [], _ => by simp [removeName]
+  | (n, t) :: rest, h => by
+    simp only [List.map_cons, List.mem_cons, not_or] at h
+    have hne : ¬ n = name := fun e => h.1 e.symm
+    simp only [List.cons_append, removeName, if_neg hne, removeName_append_self rest h.2]
+
+theorem fxBlkCreate_eq (b : Blk) (name : String) (cols : List (String × ColType))
+    (data : Option (List (List Val))) :
+    (fxBlkCreate b name cols data).1 = (blkCreate b name (sCreated (createWith cols data))).1 ∧
+    ((fxBlkCreate b name cols data).2 = none ↔ (blkCreate b name (sCreated (createWith cols data))).2 = none) := by
+  unfold fxBlkCreate blkCreate
+  by_cases hn : name ∈ b.names
+  · simp [hn]
+  · simp only [hn, if_false]
+    unfold createWith sCreated
+    cases mkDtype cols with
+    | error e => simp [Except.map]
+    | ok c =>
+      simp only []
+      cases data with
+      | none =>
+        simp only [Option.getD, npRows]
+        by_cases he : c.isEmpty = true
+        · simp [he, Except.map]
+        · simp [he, Except.map, h5RowsOk, encFrame]
+      | some rows =>
+        simp only [Option.getD]
+        cases hnp : npRows (c.map (·.2)) rows with
+        | error e =>
+          cases hc : convRows (c.map (·.2)) rows with
+          | error e' => simp [Except.map]
+          | ok rs =>
+            have := (convRows_two_stage.1 hc).1
+            rw [hnp] at this; cases this
+        | ok rs =>
+          simp only []
+          by_cases he : c.isEmpty = true
+          · cases hc : convRows (c.map (·.2)) rows <;> simp [he, Except.map]
+          · simp only [he]
+            by_cases hok : h5RowsOk (c.map (·.2)) rs = true
+            · have hc := convRows_two_stage.2 ⟨hnp, hok⟩
+              simp [hok, hc, Except.map, encFrame]
+            · cases hc : convRows (c.map (·.2)) rows with
+              | error e' =>
+                simp only [hok, Except.map]
+                refine ⟨?_, by simp⟩
+                rw [removeName_append_self b.frames hn]
+                simp
+              | ok rs' =>
+                obtain ⟨h1, h2⟩ := convRows_two_stage.1 hc
+                rw [hnp] at h1; injection h1 with h1; subst h1
+                exact absurd h2 hok
+
 end Nix.Frame
